@@ -202,3 +202,30 @@ Section External.
       end
     end.
 End External.
+
+(* ---------------------------------------------------------------- histories on one RegConfig: checks interleaved
+   with configuration reloads (RegistrationManager.OnReload swaps the lists).  The function has no state of
+   its own: the only thing a history leaves behind is the policy installed last.  The resolver may answer
+   differently at every call (indexed by the position in the history). *)
+Inductive hop := HCheck (s : bytes) | HReload (p : policy).
+
+Section History.
+  Variable parse_ip : bytes -> option ipraw.
+  Variable resolve_at : nat -> bytes -> option (ipraw * bytes).
+  Variable ip_str : ipraw -> bytes.
+  Variable re_match : N -> bytes -> bool.
+
+  Fixpoint policy_after (pol : policy) (ops : list hop) : policy :=
+    match ops with
+    | [] => pol
+    | HReload p :: r => policy_after p r
+    | HCheck _ :: r => policy_after pol r
+    end.
+
+  Fixpoint run_history (pol : policy) (n : nat) (ops : list hop) : list (option bytes * bool) :=
+    match ops with
+    | [] => []
+    | HReload p :: r => run_history p (S n) r
+    | HCheck s :: r => parse_or_resolve parse_ip (resolve_at n) ip_str re_match pol s :: run_history pol (S n) r
+    end.
+End History.
